@@ -13,17 +13,22 @@ class InputMutated(Exception):
     """a compiled callable modified the array it was given"""
 
 
+class EarlierResultOverwritten(Exception):
+    """a later call changed the array an earlier call had returned"""
+
+
 class InPlace:
     """The calling discipline of a solver, applied to a compiled callable: ONE float64 buffer per callable that is
     overwritten IN PLACE for every new point (SciPy hands its own iterate array, updated in place), and every point
     requested twice in a row (line searches and accept steps re-request the last point).  Returns the second answer;
     raises when the two answers differ or the callee wrote into the buffer."""
 
-    __slots__ = ("fn", "buf")
+    __slots__ = ("fn", "buf", "prev", "prev_copy", "prev_x")
 
     def __init__(self, fn):
         self.fn = fn
         self.buf = None
+        self.prev = self.prev_copy = self.prev_x = None
 
     def __call__(self, x):
         x = np.asarray(x, dtype=np.float64)
@@ -39,6 +44,15 @@ class InPlace:
             raise InputMutated(f"input {x.tolist()} became {self.buf.tolist()}")
         if c1.shape != c2.shape or not np.array_equal(c1, c2, equal_nan=True):
             raise RepeatCallDiffers(f"at {x.tolist()}: first {c1.tolist()} second {c2.tolist()}")
+        # a solver KEEPS earlier results (the previous gradient / Hessian of a quasi-Newton or trust-region step): the
+        # array returned for the previous point must still hold that point's values after this call
+        if isinstance(self.prev, np.ndarray) and not np.array_equal(self.prev, self.prev_copy, equal_nan=True):
+            raise EarlierResultOverwritten(f"result returned at {self.prev_x} was {self.prev_copy.tolist()}, after the call at "
+                                           f"{x.tolist()} the same array holds {self.prev.tolist()}")
+        if isinstance(r2, np.ndarray):
+            self.prev, self.prev_copy, self.prev_x = r2, np.array(r2, copy=True), x.tolist()
+        else:
+            self.prev = None
         return r2
 
 
